@@ -169,7 +169,7 @@ func (s *Sim) mutateConf() *ConfSpec {
 		qs := c.allQueues()
 		path := pick(r, qs)
 		q := c.Find(path)
-		switch r.Intn(15) {
+		switch r.Intn(16) {
 		case 0, 1: // change the maximum
 			if path == "root" {
 				continue
@@ -318,6 +318,22 @@ func (s *Sim) mutateConf() *ConfSpec {
 			q.Children = append(q.Children, nq)
 			q.Guar = nil
 			s.probe("reload_leaf_to_parent")
+		case 15: // a parent leaves the configuration with everything below it
+			if path == "root" || q.IsLeaf() {
+				continue
+			}
+			par := c.parentOf(path)
+			if par == nil || len(par.Children) <= 1 {
+				continue
+			}
+			var keep []*QSpec
+			for _, ch := range par.Children {
+				if ch != q {
+					keep = append(keep, ch)
+				}
+			}
+			par.Children = keep
+			s.probe("reload_subtree_removed")
 		case 14: // access control lists
 			if path == "root" {
 				// keep root as generated: closing it would only make every later submission fail
